@@ -134,6 +134,15 @@ func runCheck(prop, tier string, workers int, only string, noReplay bool) int {
 				nviol++
 				continue
 			}
+			if strings.HasPrefix(v.Label, "C17.") {
+				// non-interference obligations: the evidence is the store site found by the executor;
+				// a data race is schedule dependent and is not replayed natively (DESIGN section 4, C17)
+				fmt.Printf("VIOLATION property=%s replay=%s\n", prop, cex)
+				fmt.Printf("  harness=%s label=%q where=%s (static non-interference violation, not replayed)\n", hr.Spec.Fn, v.Label, v.Where)
+				nviol++
+				exit = 1
+				continue
+			}
 			if rp == nil {
 				rp = NewReplayer(ld)
 			}
